@@ -20,6 +20,8 @@ type VStr struct {
 	Bytes []Term // byte-level, concrete length
 	N     int    // declared length of an atom (0 = unknown)
 	Hexed bool   // the atom stands for the hex text of the identified bytes
+	HexOf  []Term // the string is the lower-case hex text of these bytes (kept structural; expanded only on demand)
+	IsHexOf bool
 	HexNum bool  // hex numeral atom: id = 2*numeric value + spelling bit
 }
 type VStruct struct{ F []Value }
